@@ -2,7 +2,7 @@
 (* decision theorems with filters are stated on (C02_DataRows.v).                                                                *)
 From Coq Require Import Lia.
 From LCM Require Import Base.Prelude Base.Arr Model.Dispatchers Spec.Lang Gen.ChoiceAxes Gen.DataSCS.
-From LCM Require Import Proofs.ArrLemmas Proofs.C18_Moved Proofs.C01_Period Proofs.C02_DataRows Proofs.C02_DataSCS.
+From LCM Require Import Proofs.ArrLemmas Proofs.C18_Moved Proofs.C01_Period Proofs.C02_DataRows Proofs.PyVocabLemmas Proofs.C02_DataSCS.
 Local Open Scope nat_scope.
 
 Lemma in_combine_seq {A} : forall (l : list A) s j x, In (j, x) (combine (seq s (length l)) l) -> s <= j /\ nth_error l (j - s) = Some x.
